@@ -348,6 +348,23 @@ func (ms *Modules) process() []error {
 		}
 	}
 
+	// A submodule that no module includes is converted and augmented in
+	// its own right.  Its import statements are looked up when a prefix
+	// is met: load the modules it imports now, so that they are processed
+	// like every other module instead of turning up half way through.
+	for _, m := range sortedModules(ms.SubModules) {
+		if ms.includes[m] {
+			continue
+		}
+		for _, i := range m.Import {
+			if im := ms.FindModule(i); im != nil {
+				if err := ms.include(im); err != nil {
+					errs = append(errs, err)
+				}
+			}
+		}
+	}
+
 	// Resolve identities before resolving typedefs, otherwise when we resolve a
 	// typedef that has an identityref within it, then the identity dictionary
 	// has not yet been built.
